@@ -54,7 +54,8 @@ class FailGen(gen_tmpl.Gen):
         e = n[1]
         k = self.rng.random()
         if k < 0.12:
-            e["attrs_cmd"] = [bad_attrs()]
+            # an unsupported value alone, or followed / preceded by a supported one
+            e["attrs_cmd"] = self.rng.choice([[bad_attrs()], [bad_attrs(), "E.M"], ["E.MB", bad_attrs()], [bad_attrs(), "E.MB", "E.M"]])
         elif k < 0.24 and e["objref"] is None:
             e["class_attr"] = ("dyn", [bad_class()])
         return n
@@ -75,6 +76,11 @@ def run(chk):
         for i in range(nfiles):
             g = FailGen(rng, prefix="F%d" % i)
             files["f%d" % i] = g.file()
+        big_tmpl = {"name": "BIGT0", "layout": False, "body": [
+            ("for", 0, "x1", [("el", {"tag": "p", "id": None, "classes": [], "attrs": [], "marks": "", "void": False, "attrs_cmd": None,
+                                        "class_attr": None, "objref": None, "layout": "one"},
+                               ("script", X("x1", lambda e, l: l["x1"]), None), None)], "short")]}
+        files["big"] = {"package": "main", "templates": [big_tmpl]}
         b = lrender.make_batch(files)
         try:
             lrender.report_build_problems(chk, b, files)
@@ -95,6 +101,13 @@ def run(chk):
                     variants.append((base, "short1"))
                     for env, mode in variants:
                         cases.append((f, t["name"], env, mode, d))
+                    if k != "big" and rng.random() < 0.15 and "big" not in b.rejected and "big" not in b.build_errors:
+                        # a document well over 64 KiB whose final write fails (or succeeds), then a small render
+                        bigenv = copy.deepcopy(base)
+                        bigenv["SS"] = [["0123456789abcdefghijklmnopqrstuvwxyz-%d" % j for j in range(2600)], []]
+                        dbig = gen_tmpl.Denote(files["big"], lrender.OBJS)
+                        cases.append((files["big"], "BIGT0", bigenv, rng.choice(["fail1", "buf", "short1"]), dbig))
+                        cases.append((f, t["name"], base, "buf", d))
             lines = ["render %s %s %s" % (n, mode, render.env_json(env, lrender.OBJS)) for f, n, env, mode, d in cases]
             res = b.run(lines)
         finally:
